@@ -187,7 +187,29 @@ func rulesC20(c *Ctx) {
 				okRet = true
 			}
 		}
-		_ = rg
+		// element accesses of data (the length read, the optional nil-ing of the slot) come before the reslice: after
+		// data = data[1:] index 0 is the oldest *retained* item
+		okOrder := true
+		var resliceV = -1
+		for _, w := range Writes(rf.Body, false) {
+			if rf.IsField(w.LHS, dataF) && w.RHS != nil {
+				if _, isSl := ast.Unparen(w.RHS).(*ast.SliceExpr); isSl {
+					resliceV = rg.VertexOf(w.Stmt)
+				}
+			}
+		}
+		if resliceV >= 0 {
+			after := rg.ReachableFrom(resliceV)
+			ast.Inspect(rf.Body, func(n ast.Node) bool {
+				if ix, ok := n.(*ast.IndexExpr); ok && rf.IsField(ix.X, dataF) {
+					if v := rg.VertexOf(ix); v >= 0 && v != resliceV && after[v] {
+						okOrder = false
+					}
+				}
+				return true
+			})
+		}
+		c.Check(okOrder && resliceV >= 0, "removeFirst:slot-accessed-before-reslice", rf, nil, "data[0] is read (and cleared) only before data = data[1:]")
 		c.Check(okSize, "removeFirst:size-shrinks", rf, nil, "removeFirst subtracts the removed item's length from the list's size (SessionClosed later subtracts size from the store total: bytes already evicted must not be subtracted again)")
 		c.Check(okFirst && okData, "removeFirst:oldest-first", rf, nil, "removeFirst drops data[0] (data = data[1:]) and advances first by one")
 		c.Check(okRet, "removeFirst:returns-removed-size", rf, nil, "removeFirst returns len(data[0]) of the removed item")
